@@ -283,6 +283,9 @@ theorem handler_keeps (cfg : Sim.Cfg K) (wf : WfCfg cfg.comp) (t : K) (e : Elem)
     | addEdge _ _ _ => exact absurd ha (by simp [Shipped, shippedB])
     | rmEdge _ _ _ => exact absurd ha (by simp [Shipped, shippedB])
     | adAdd _ _ _ => exact absurd ha (by simp [Shipped, shippedB])
+    | vaccinate => exact absurd ha (by simp [Shipped, shippedB])
+    | sivrInfect _ _ _ _ _ _ => exact absurd ha (by simp [Shipped, shippedB])
+    | plainLeave _ => exact absurd ha (by simp [Shipped, shippedB])
     | adDel _ _ => exact absurd ha (by simp [Shipped, shippedB])
 
 /-- **whole runs**: for a process whose handlers are shipped-style action scripts and whose tap only reads, loci equal
